@@ -13,6 +13,10 @@ classes (two-hop) and reflexive associations with phrases, with filters; navigat
 Construction routes: the API, and in the family `loaded` xtuml.ModelLoader (the population after a history prefix is
 written as SQL text, meta_common.Model.from_sql; the rest of the history and the queries run on the loader-built model).
 
+Family `ordvalues` (D only): orderings over STRING, REAL, BOOLEAN, UNIQUE_ID and wide INTEGER attributes (empty strings, zeros,
+negative and falsy values, values beyond 64 bits, values that differ in case / blanks / the seventh decimal), through every
+query form, on API-built and loader-built populations; expectation = a written-out stable insertion sort on the given rows.
+
   D  an independent relational evaluation over the dumped rows and link pairs (list comprehensions,
      Python's own stable `sorted` on key tuples; descending = ascending on negated keys).
   K  lean/PyxModel/Query.lean evaluated by the driver on the same history and queries.
@@ -28,9 +32,11 @@ RULE = ('random histories (length 10-120 quick, up to 400 thorough) over 7 assoc
         '{0,1,2}; per final state 14 generated queries covering every operator combination and navigation handle form; '
         'non-trivial: some query returned >= 2 instances, or a navigation of >= 2 steps returned something, or an '
         'ordering had ties; distinct = distinct (shape, history, attribute values, queries); family `loaded`: the same cases with the '
-        'first k ops (k up to the whole history) realised as SQL text loaded by xtuml.ModelLoader')
+        'first k ops (k up to the whole history) realised as SQL text loaded by xtuml.ModelLoader; family `ordvalues` (D only): 2-8 rows '
+        'with attributes of every core type drawn from 2-4 pool values each (empty / zero / falsy / negative / > 64 bit / nearly equal), '
+        '6 orderings per case through every query form, three construction routes; non-trivial: some ordered result holds two different keys')
 EXHAUSTIVE = {'quick': False, 'thorough': False}
-ASSUMPTIONS = ['ordering attributes hold integers (comparing None with int raises TypeError in Python: outside the domain)',
+ASSUMPTIONS = ['ordering attributes hold non-null values of one type (comparing None with a value raises TypeError in Python: outside the domain); the Lean model orders integers, orderings over the other core types are checked by D only (family ordvalues)',
                'lambdas are drawn from a small predicate language the model can also evaluate']
 CHUNK = 500
 CASE_TIMEOUT_S = 30
@@ -151,6 +157,73 @@ def generate(ctx):
         vals = [r.choice(pools[ty]) for _ in range(r.randint(2, 7))]
         yield {'fam': 'values', 'shape': 'values', 'type': ty, 'vals': vals, 'probe': [r.choice(pools[ty]) for _ in range(4)],
                'ops': [], 'queries': [], 'attrs': []}
+    # D only: orderings over attributes of EVERY core type (the histories above order by small integers only): the order is
+    # the order of the VALUES (`<` on strings, numbers, booleans, identifiers), whatever the value is - empty, zero, negative,
+    # falsy, beyond 64 bits, differing only in letter case / blanks / the seventh decimal; see _ord_case
+    orr = ctx.rng.fork('ordvalues')
+    for i in range(ctx.pick(300, 4000)):
+        yield _ord_case(orr.fork(i))
+
+
+ORD_POOLS = {'string': ['', 'a', 'A', 'a ', ' a', 'ab', 'b', 'B', '0', '10', '9', 'None', 'a\n', '\t', ' ', 'é', 'z', '~', "it's"],
+             'integer': [0, 1, -1, 2, 10, 9, -10, 2 ** 31, -2 ** 31 - 1, 2 ** 63, 2 ** 64, -2 ** 64],
+             'real': [0.0, -0.0, 0.1, 0.1000002, 1e-9, -1e-9, 2.0, 2, 0.5, -0.5, 123456.7890001, 123456.7890004, 1e20, 1e20 + 65536.0],
+             'boolean': [False, True],
+             'unique_id': [0, 1, 2, 3, 10, 2 ** 64, 2 ** 127 + 1]}
+ORD_FORMS = ['select_many', 'select_many', 'metaclass', 'select_any', 'select_one', 'first', 'last', 'nav_many', 'nav_many',
+             'nav_any', 'assoc']
+
+
+def _ord_case(r):
+    """family `ordvalues`: one class V (X: tx, Y: ty, N: integer = creation index, WId referring to W.Id over R1) whose rows
+    draw X and Y from 2-4 values of the type's pool (ties are frequent; the first value of every pool - '', 0, 0.0, False -
+    is in every other sub-pool); some rows are linked to the one W instance, a few are deleted again.  Built by
+    MetaModel.new with keywords, by new + attribute assignment, or by the loader from SQL text.  Queries: order_by /
+    reverse_order_by on X, Y, both, or one of them and N; alone, after or before a filter, or after another ordering;
+    through select_many / MetaClass.select_many / select_any / select_one / .first / .last, as the filter of navigate_many /
+    navigate_any from a list, QuerySet or generator holding the instances in any order (with duplicates), and of a
+    navigation across R1 (there the key ends in N: the order of the partners of one instance is not part of the statement)."""
+    types = sorted(ORD_POOLS)
+    tx, ty = r.choice(types), r.choice(types)
+    sub = {}
+    for a, t in (('X', tx), ('Y', ty)):
+        pool = ORD_POOLS[t]
+        vs = [pool[0]] if r.random() < 0.5 else []
+        while len(vs) < min(len(pool), r.randint(2, 4)):
+            v = r.choice(pool)
+            if not any(v is w or (type(v) == type(w) and repr(v) == repr(w)) for w in vs):
+                vs.append(v)
+        sub[a] = vs
+    rows = [[r.choice(sub['X']), r.choice(sub['Y']), r.random() < 0.7, r.random() < 0.08] for _ in range(r.randint(2, 8))]
+    live = [n for n, row in enumerate(rows) if not row[3]]
+    route = r.choice(['new', 'assign', 'sql'])
+    if route == 'sql' and any(isinstance(v, float) and 'e' in repr(v) for row in rows for v in row[:2]):
+        route = 'new'                     # the text format has no exponent notation
+    queries = []
+    for _ in range(6):
+        form = r.choice(ORD_FORMS)
+        attrs = r.choice([['X'], ['Y'], ['X', 'Y'], ['Y', 'X'], ['X', 'N'], ['N', 'Y'], ['X'], ['Y']])
+        if form == 'assoc' and 'N' not in attrs:
+            attrs = attrs + ['N']
+        q = {'form': form, 'attrs': attrs, 'rev': r.random() < 0.5, 'filt': None, 'filt_first': r.random() < 0.5, 'then': None,
+             'handle': [], 'hform': r.choice(['list', 'qset', 'gen'])}
+        c = r.random()
+        if c < 0.2:
+            a = r.choice(['X', 'Y'])
+            q['filt'] = [r.choice(['eq', 'dict', 'ne']), a, r.choice(sub[a])]
+        elif c < 0.3:
+            q['filt'] = ['odd', 'N', 0]
+        elif c < 0.4 and form != 'assoc':
+            q['then'] = [r.choice([['X'], ['Y']]), r.random() < 0.5]
+        if form in ('nav_many', 'nav_any') and live:
+            h = list(live)
+            r.shuffle(h)
+            if q['hform'] != 'qset':
+                h = h + [r.choice(live) for _ in range(r.randint(0, 2))]
+            q['handle'] = h[:r.randint(1, len(h))]
+        queries.append(q)
+    return {'fam': 'ordvalues', 'shape': 'values', 'types': [tx, ty], 'rows': rows, 'route': route, 'oq': queries,
+            'ops': [], 'queries': [], 'attrs': []}
 
 
 def _case(r, ctx, names):
@@ -450,9 +523,134 @@ def _run_values(case):
             'stats': {'fam_values': 1}, 'model_line': None}
 
 
+def _stable_sorted(seq, key, descending):
+    """the statement's ordering, written out: an insertion sort that moves an element only past STRICTLY greater (ascending)
+    resp. strictly smaller (descending) keys, so equal keys keep their incoming order in both directions"""
+    out = []
+    for x in seq:
+        kx, j = key(x), len(out)
+        while j > 0 and ((key(out[j - 1]) < kx) if descending else (kx < key(out[j - 1]))):
+            j -= 1
+        out.insert(j, x)
+    return out
+
+
+def _ord_sql(case):
+    tx, ty = case['types']
+    out = ['CREATE TABLE W (Id UNIQUE_ID);', 'CREATE TABLE V (X %s, Y %s, N INTEGER, WId UNIQUE_ID);' % (tx.upper(), ty.upper()),
+           'CREATE ROP REF_ID R1 FROM MC V (WId) TO 1C W (Id);', 'INSERT INTO W VALUES (7);']
+    for n, row in enumerate(case['rows']):
+        out.append('INSERT INTO V VALUES (%s, %s, %d, %d);' % (mc._sql_literal(row[0], tx), mc._sql_literal(row[1], ty), n,
+                                                               7 if row[2] else 0))
+    return '\n'.join(out) + '\n'
+
+
+def _run_ordvalues(case):
+    tx, ty = case['types']
+    rows = case['rows']
+    if case['route'] == 'sql':
+        loader = _x.ModelLoader()
+        loader.input(_ord_sql(case))
+        m = loader.build_metamodel()
+        w = m.select_any('W')
+    else:
+        m = _x.MetaModel()
+        m.define_class('W', [('Id', 'unique_id')])
+        m.define_class('V', [('X', tx), ('Y', ty), ('N', 'integer'), ('WId', 'unique_id')])
+        m.define_association('R1', 'V', ['WId'], True, True, '', 'W', ['Id'], False, True, '').formalize()
+        w = m.new('W', Id=7)
+        for n, row in enumerate(rows):
+            if case['route'] == 'new':
+                v = m.new('V', X=row[0], Y=row[1], N=n)
+            else:
+                v = m.new('V')
+                v.N, v.Y, v.X = n, row[1], row[0]
+            if row[2]:
+                _x.relate(v, w, 1)
+    byn = {}
+    for i in m.find_metaclass('V').storage:
+        byn.setdefault(i.N, i)
+    for n, row in enumerate(rows):
+        if row[3] and n in byn:
+            _x.delete(byn[n])
+    live = [n for n, row in enumerate(rows) if not row[3]]
+    val = lambda n, a: n if a == 'N' else rows[n][0 if a == 'X' else 1]
+    fails, stats, nontrivial = [], {'fam_ordvalues': 1, 'ord_route_' + case['route']: 1}, False
+
+    def passes(n, f):
+        if f[0] == 'odd':
+            return n % 2 == 1
+        return (val(n, f[1]) != f[2]) if f[0] == 'ne' else (val(n, f[1]) == f[2])
+
+    for q in case['oq']:
+        form, f = q['form'], q['filt']
+        # the statement, on the rows as given
+        seq = [n for n in live if rows[n][2]] if form == 'assoc' else dedup(q['handle']) if form.startswith('nav') else list(live)
+        if f and q['filt_first']:
+            seq = [n for n in seq if passes(n, f)]
+        seq = _stable_sorted(seq, lambda n: tuple(val(n, a) for a in q['attrs']), q['rev'])
+        if q['then']:
+            seq = _stable_sorted(seq, lambda n: tuple(val(n, a) for a in q['then'][0]), q['then'][1])
+        if f and not q['filt_first']:
+            seq = [n for n in seq if passes(n, f)]
+        if len(set(repr(tuple(val(n, a) for a in q['attrs'])) for n in seq)) >= 2:
+            nontrivial = True
+        want = seq[:1] if form in ('select_any', 'select_one', 'nav_any', 'first') else seq[-1:] if form == 'last' else seq
+        # the implementation
+        order = (_x.reverse_order_by if q['rev'] else _x.order_by)(*q['attrs'])
+        ops = [order]
+        if q['then']:
+            ops.append((_x.reverse_order_by if q['then'][1] else _x.order_by)(*q['then'][0]))
+        if f:
+            fop = (_x.where_eq(**{f[1]: f[2]}) if f[0] == 'eq' else {f[1]: f[2]} if f[0] == 'dict' else
+                   (lambda sel, a=f[1], v=f[2]: getattr(sel, a) != v) if f[0] == 'ne' else (lambda sel: sel.N % 2 == 1))
+            ops = [fop] + ops if q['filt_first'] else ops + [fop]
+        hs = [byn[n] for n in q['handle'] if n in byn]
+        handle = lambda: {'list': hs, 'qset': _x.QuerySet(hs), 'gen': (i for i in hs)}[q['hform']]
+        one = lambda i: [] if i is None else [i]
+        try:
+            if form == 'select_many':
+                res = m.select_many('V', *ops)
+            elif form == 'metaclass':
+                res = m.find_metaclass('V').select_many(*ops)
+            elif form == 'select_any':
+                res = one(m.select_any('V', *ops))
+            elif form == 'select_one':
+                res = one(m.select_one('V', *ops))
+            elif form == 'first':
+                res = one(m.select_many('V', *ops).first)
+            elif form == 'last':
+                res = one(m.select_many('V', *ops).last)
+            elif form == 'nav_many':
+                res = _x.navigate_many(handle())(*ops)
+            elif form == 'nav_any':
+                res = one(_x.navigate_any(handle())(*ops))
+            else:
+                res = _x.navigate_many(w).V[1](*ops)
+            got = [i.N for i in res]
+        except Exception as e:
+            got = 'raised %s' % type(e).__name__
+        stats['ord_' + form] = stats.get('ord_' + form, 0) + 1
+        if got != want:
+            fails.append({'sig': 'order-typed-values', 'what': '%s with %s%r%s%s%s returned the rows %r, the statement gives %r; rows (X: %s, '
+                          'Y: %s, linked, deleted; N = position) %r, built by %s'
+                          % (form, 'reverse_order_by' if q['rev'] else 'order_by', tuple(q['attrs']),
+                             (' then %s%r' % ('reverse_order_by' if q['then'][1] else 'order_by', tuple(q['then'][0]))) if q['then'] else '',
+                             (' %s filter %r' % ('after' if q['filt_first'] else 'before', f)) if f else '',
+                             (' from the %s %r' % (q['hform'], q['handle'])) if form.startswith('nav') else '',
+                             got, want, tx, ty, rows, case['route'])})
+    for t in (tx, ty):
+        stats['ord_type_' + t] = 1
+    return {'obs': [], 'd_fail': fails[:3], 'nontrivial': nontrivial,
+            'key': 'ordvalues/%r/%r/%s/%r' % (case['types'], rows, case['route'], [sorted(q.items()) for q in case['oq']]),
+            'stats': stats, 'model_line': None}
+
+
 def run_impl(case):
     if case.get('fam') == 'values':
         return _run_values(case)
+    if case.get('fam') == 'ordvalues':
+        return _run_ordvalues(case)
     schema = SHAPES[case['shape']]
     # unique identifiers over the plain attributes: the library records but never enforces them, so states
     # with duplicate identifier values are reachable and queries must still return every match
@@ -605,6 +803,22 @@ def model_obs(case, ans):
 
 
 def shrink_candidates(case):
+    if case.get('fam') == 'ordvalues':
+        for i in range(len(case['oq'])):
+            yield dict(case, oq=case['oq'][:i] + case['oq'][i + 1:])
+        for i in range(len(case['rows']) - 1, -1, -1):          # N is the position: later rows and the handles are renumbered
+            oq = [dict(q, handle=[n - (n > i) for n in q['handle'] if n != i]) for q in case['oq']]
+            yield dict(case, rows=case['rows'][:i] + case['rows'][i + 1:], oq=oq)
+        for i, row in enumerate(case['rows']):
+            if row[2] or row[3]:
+                yield dict(case, rows=case['rows'][:i] + [[row[0], row[1], False, False]] + case['rows'][i + 1:])
+        for i, q in enumerate(case['oq']):
+            for simpler in (dict(q, filt=None), dict(q, then=None), dict(q, attrs=q['attrs'][:-1])):
+                if simpler != q and simpler['attrs'] and not (q['form'] == 'assoc' and 'N' not in simpler['attrs']):
+                    yield dict(case, oq=case['oq'][:i] + [simpler] + case['oq'][i + 1:])
+        if case['route'] != 'new':
+            yield dict(case, route='new')
+        return
     qs = case['queries']
     for i in range(len(qs)):
         c = dict(case)
